@@ -202,7 +202,7 @@ Lemma rx_arp_cases c s p :
   rx_arp c s p = (s, []) \/
   (closed s = false /\ hunt_has (psmac p) (hunt s) = true /\ ptip p = router_ip c /\
    rx_arp c s p = (set_rxq s (rxq s ++ [spoof_reply c p]), [])) \/
-  (closed s = false /\ ptip p <> router_ip c /\ rx_arp c s p = wr2 s (probe_reject c p)).
+  (closed s = false /\ ptip p <> router_ip c /\ rx_arp c s p = (set_rxq s (rxq s ++ [probe_reject c p]), [])).
 Proof.
   unfold rx_arp. destruct (closed s) eqn:Hc; auto.
   destruct (classify p); auto.
@@ -218,30 +218,31 @@ Lemma rx_arp_state c s p :
   hunt (fst (rx_arp c s p)) = hunt s /\ loops (fst (rx_arp c s p)) = loops s /\
   closed (fst (rx_arp c s p)) = closed s /\ offers (fst (rx_arp c s p)) = offers s.
 Proof.
-  destruct (rx_arp_cases c s p) as [E|[[_ [_ [_ E]]]|[_ [_ E]]]]; rewrite E; simpl; auto; apply wr2_state.
+  destruct (rx_arp_cases c s p) as [E|[[_ [_ [_ E]]]|[_ [_ E]]]]; rewrite E; simpl; auto.
 Qed.
 
-(* the receive path itself emits no forged frame: the spoof reply is only decided here, the probe-reject never
-   carries the router's address *)
+(* ProcessPacket itself writes nothing: replies are only decided here *)
+Lemma rx_arp_silent c s p : snd (rx_arp c s p) = [].
+Proof. destruct (rx_arp_cases c s p) as [E|[[_ [_ [_ E]]]|[_ [_ E]]]]; rewrite E; reflexivity. Qed.
+
 Lemma rx_arp_confined c s p f :
   In f (snd (rx_arp c s p)) -> forged c f = true -> hunted s (fedst f) = true.
-Proof.
-  intros Hin Hf. destruct (rx_arp_cases c s p) as [E|[[_ [Hh [_ E]]]|[_ [Hne E]]]]; rewrite E in Hin.
-  - contradiction.
-  - contradiction.
-  - apply wr2_out in Hin. subst f. unfold forged, probe_reject in Hf. simpl in Hf.
-    apply andb_true_iff in Hf as [Hf _]. exfalso. apply Hne. lia.
-Qed.
+Proof. rewrite rx_arp_silent. intros []. Qed.
 
-(* a reply is queued only for a hunted MAC *)
+(* a reply is queued only for a hunted MAC (the spoof reply), or it is not forged (the probe-reject never carries
+   the router's address) *)
 Lemma rx_arp_queue c s p :
   rxq (fst (rx_arp c s p)) = rxq s \/
-  (hunted s (psmac p) = true /\ rxq (fst (rx_arp c s p)) = rxq s ++ [spoof_reply c p])%list.
+  (hunted s (psmac p) = true /\ rxq (fst (rx_arp c s p)) = rxq s ++ [spoof_reply c p])%list \/
+  (forged c (probe_reject c p) = false /\ rxq (fst (rx_arp c s p)) = rxq s ++ [probe_reject c p])%list.
 Proof.
-  destruct (rx_arp_cases c s p) as [E|[[_ [Hh [_ E]]]|[_ [_ E]]]]; rewrite E; simpl; auto.
-  left. unfold wr2. destruct (wr s (probe_reject c p)) as [[s1 o] ok] eqn:Hw. simpl.
-  apply (wr_state2 _ _ _ _ _ Hw).
+  destruct (rx_arp_cases c s p) as [E|[[_ [Hh [_ E]]]|[_ [Hne E]]]]; rewrite E; simpl; auto.
+  right; right. split; auto. unfold forged, probe_reject. simpl.
+  destruct (ptip p =? router_ip c) eqn:Q; [exfalso; apply Hne; lia|reflexivity].
 Qed.
+
+Lemma rx_arp_failn c s p : failn (fst (rx_arp c s p)) = failn s.
+Proof. destruct (rx_arp_cases c s p) as [E|[[_ [_ [_ E]]]|[_ [_ E]]]]; rewrite E; reflexivity. Qed.
 
 Lemma rx_reply_spec s k :
   (forall g, In g (snd (rx_reply s k)) -> nth_error (rxq s) k = Some g) /\
@@ -446,15 +447,10 @@ Proof.
   intros Hc Hce Hnr Hcf Hin.
   destruct e as [a| |m| |i|i|i|p|k|et b|m o|k|ip|dst ip|ip|dst ip|dst sn tg|dst sn tg| |j|j|ip n| ];
     try discriminate; simpl in *; try contradiction.
-  - destruct (forged c f) eqn:Hf; auto. pose proof (rx_arp_confined c s p f Hin Hf).
-    destruct (rx_arp_cases c s p) as [E|[[_ [_ [_ E]]]|[_ [Hne E]]]]; rewrite E in Hin; try contradiction.
-    apply wr2_out in Hin. subst f. unfold forged, probe_reject in Hf. simpl in Hf.
-    apply andb_true_iff in Hf as [Hf _]. exfalso. apply Hne. lia.
+  - rewrite rx_arp_silent in Hin. contradiction.
   - exfalso. apply (Hnr k). reflexivity.
   - destruct (rx_raw_cases c s et b) as [E|[p E]]; simpl in E; rewrite E in Hin; [contradiction|].
-    destruct (rx_arp_cases c s p) as [E'|[[_ [_ [_ E']]]|[_ [Hne E']]]]; rewrite E' in Hin; try contradiction.
-    apply wr2_out in Hin. subst f. unfold forged, probe_reject. simpl.
-    destruct (ptip p =? router_ip c) eqn:Q; [exfalso; apply Hne; lia|reflexivity].
+    rewrite rx_arp_silent in Hin. contradiction.
   - apply wr2_out in Hin. subst f. apply request_to_not_forged; auto.
   - apply wr2_out in Hin. subst f. apply request_to_not_forged; auto.
   - apply wr2_out in Hin. subst f. apply probe_frame_not_forged; auto.
@@ -533,7 +529,7 @@ Proof. unfold wr2. destruct (wr s f) as [[s1 o] ok] eqn:E. simpl. eapply wr_stat
 
 Lemma rx_arp_scans c s p : scans (fst (rx_arp c s p)) = scans s.
 Proof.
-  destruct (rx_arp_cases c s p) as [E|[[_ [_ [_ E]]]|[_ [_ E]]]]; rewrite E; simpl; auto. apply wr2_aux.
+  destruct (rx_arp_cases c s p) as [E|[[_ [_ [_ E]]]|[_ [_ E]]]]; rewrite E; simpl; auto.
 Qed.
 
 Ltac loop_cases s :=
